@@ -313,7 +313,7 @@ pub fn site_key(dialect: &str, a: &[String], b: &[String]) -> String {
     let tok = |k: usize| -> String {
         a.get(k).map(|s| s.chars().filter(|c| !c.is_whitespace()).take(24).collect::<String>()).unwrap_or_else(|| "<end>".into())
     };
-    format!("c06:site:{}:{}+{}", dialect, tok(i), tok(i + 1))
+    format!("c06:site:{}:{}+{}", dialect, tok(i).to_ascii_uppercase(), tok(i + 1).to_ascii_uppercase())
 }
 
 /// first index where two sequences differ, with a little context
@@ -866,7 +866,10 @@ fn run_fix(st: &mut St, it: &Item, out: &mut Buf) -> Vec<&'static str> {
         let m = monitor_batch(b, &before, &after);
         let ex = |what: &str| json!({"input": input, "rule": b.rule, "pass": b.pass, "what": what, "fixes": b.fixes.iter().take(6).map(fix_j).collect::<Vec<_>>()});
         out.hyp("ids_unique", "blocking", m.ids_unique, ex("ids_unique"));
-        out.hyp("edits_fresh", "blocking", m.edits_fresh, ex("edits_fresh"));
+        // diagnostic: a rule may *move* a segment (delete it at one anchor and create the same object at another in one batch: LT03
+        // with trailing operators does); its id is then not fresh, but it is not duplicated either - `ids_unique` on the resulting
+        // tree stays blocking
+        out.hyp("edits_fresh", "diagnostic", m.edits_fresh, ex("edits_fresh"));
         out.hyp("single_anchor", "blocking", m.single_anchor, ex("single_anchor"));
         out.hyp("no_source_fixes", "blocking", m.no_source_fixes, ex("no_source_fixes"));
         if !m.code_neutral {
